@@ -28,16 +28,20 @@ MANIFEST = dict(
               'correspondence run under virtual time with scripted HTTP',
     design='5/C12',
 )
-GEN = ["SseUnits"]
+GEN = []
+SUPP_GEN = ["SseUnits"]
 THEOREMS = [
     "c12_endpoint_forms", "c12_data_only_announcement", "c12_live_or_raise", "c12_enter_bounded", "c12_enter_complete",
-    "c12_race_exactly_once", "c12_event_first_any_post", "c12_race_count", "c12_request_leaves_idle", "c12_serial_requests",
+    "c12_race_exactly_once", "c12_event_first_any_post", "c12_instances_independent", "c12_options_irrelevant", "c12_race_count", "c12_request_leaves_idle", "c12_serial_requests",
     "c12_stream_chunk_independent", "c12_delivery_chunk_independent", "c12_stream_delivers_rendered",
     "c12_stream_delivers_conformant", "c12_server_messages_once_in_order", "c12_cleanup_closes_all",
-    "c12_stream_end_after_announcement", "c12_stream_end_requests", "c12_post_target_function", "c12_endpoint_same_origin", "c12_endpoint_translated_agrees", "c12_session_id_none_iff",
-    "c12_bearer_value", "c12_headers", "c12_headers_transport_adds_nothing", "c12_header_literals_agree",
-    "c12_params_accept_iff", "c12_params_normalised", "c12_param_rules_agree", "c12_is_sse_url_spec",
-    "c12_sse_endpoint_is_sse_url", "c12_not_started",
+    "c12_stream_end_after_announcement", "c12_stream_end_requests", "c12_post_target_function", "c12_endpoint_same_origin",
+]
+# not stated by the property text: Props/C12Supp.lean (INFO only, never a verdict)
+SUPP_THEOREMS = [
+    "c12_endpoint_translated_agrees", "c12_session_id_none_iff", "c12_bearer_value", "c12_headers",
+    "c12_headers_transport_adds_nothing", "c12_header_literals_agree", "c12_params_accept_iff", "c12_params_normalised",
+    "c12_param_rules_agree", "c12_is_sse_url_spec", "c12_sse_endpoint_is_sse_url", "c12_not_started",
 ]
 RULE = (
     "establishment {endpoint announced in 7 accepted forms x LF/CRLF x padding x announce tick (early, mid, timeout-1), 4xx/5xx/3xx/204, "
@@ -54,6 +58,13 @@ RULE = (
     "exception} x {no answer on the event stream, the answer before / at the same instant as / after the POST completion, whole or cut} x "
     "three tie orders, each followed by two more requests on the same session (a stalled reader or sender shows there; the exit is late "
     "enough for every synthesised timeout, so a hang is a missing terminal, not a machinery timeout); "
+    "hardening sweep 2, applied to EVERY suite's cases: a quarter run under a host-configured DEBUG logger (NullHandler); the SSEParameters "
+    "options {session_id, bearer_token, headers, auto_reconnect, reconnect numbers, endpoint names, keep-alive, an unknown option} cycle over "
+    "all establishment outcomes / request modes / exits; every 7th case runs as 2-3 CONCURRENT sessions in one process (own server, same script, "
+    "same request ids; oracle: each sees what one alone sees); suite repeats: the same failure 2-4 times then success, failure between "
+    "successes, failing notification POSTs in a row, 1-4 failing sessions in a row on one parameters object then a good one, 12 exception "
+    "classes for the POST / the connection attempt / the event stream itself, 200 and non-2xx bodies of every JSON type, ids of the JSON "
+    "types JSON-RPC does not allow (caller- and peer-supplied), text that looks like event-stream / JSON syntax in ids, keys, values and raw lines; "
     "three tie orders (events/timers/io); hardening sweep (suite variants): request ids {7, \"7\", 0, \"0\", \"\", -1, 2^53+1, format-hostile, 5000 chars, "
     "strings the transport looks for} x every mode incl. unreadable 200 bodies x written as dict / JSONRPCMessage, id twins and one id used "
     "again in serial requests, answers with empty/falsy members, error answers with falsy members or the transport's own codes, extra members, "
@@ -241,6 +252,45 @@ def oracle_requests(case, o, upto=None):
         else:
             k = "lost"
         return ("server-messages/" + k, f"server messages delivered {str(srv)[:600]} != sent {str(want)[:600]}", {"srv": want[:50]})
+    return oracle_twins(case, o)
+
+
+def oracle_warm(case, o):
+    """earlier sessions on the same parameters object: one with the same server script behaves like
+    the observed one; one whose GET is refused / fails must raise (live-or-raise holds for it too)"""
+    w = case.get("warm")
+    if not w:
+        return None
+    specs = [None] if w is True else list(w)
+    got = o.get("warm") or []
+    if len(got) != len(specs):
+        return ("reuse/earlier-session-missing", f"{len(got)} of {len(specs)} earlier sessions completed: {got}", None)
+    for i, (spec, g) in enumerate(zip(specs, got)):
+        if spec is None:
+            if g.get("k") != (o.get("enter") or {}).get("k"):
+                return ("reuse/second-session-differs", f"earlier session {g}, observed session {o.get('enter')} (same server script)", None)
+        elif spec.get("k") in ("status", "error", "hang") and g.get("k") != "raised":
+            return (f"dead-connection/{spec['k']}/earlier-session", f"earlier session #{i + 1} with GET {spec} did not raise: {g}", {"enter": "raised"})
+        elif g.get("k") == "raised" and g.get("t", 0) > case.get("T", G.T_DEFAULT):
+            return ("enter-late", f"earlier session #{i + 1} raised at {g.get('t')} > timeout", None)
+    return None
+
+
+def oracle_twins(case, o):
+    """instances are independent: every concurrent twin (own server, same script, same ids) shows
+    what a session alone shows"""
+    tw = o.get("twins")
+    if not tw:
+        return None
+    mine = {"enter": (o.get("enter") or {}).get("k"), "delivered": sorted(canon(m) for m in o.get("delivered", []))}
+    for i, t in enumerate(tw):
+        theirs = {"enter": (t.get("enter") or {}).get("k"), "delivered": sorted(canon(m) for m in t.get("delivered") or [])}
+        if theirs != mine:
+            return ("instances/cross-talk", f"concurrent session #{i + 2} saw {str(theirs)[:300]}, session #1 saw {str(mine)[:300]} (same script, own server)",
+                    {"twin": mine})
+        a = t.get("after") or {}
+        if (t.get("enter") or {}).get("k") == "yielded" and (a.get("clients_open") or a.get("sse_stream_open") or a.get("reader") != "end" or a.get("write_open")):
+            return ("leak/twin", f"concurrent session #{i + 2} not released: {a}", None)
     return None
 
 
@@ -359,7 +409,7 @@ class Establish(Base):
 
     def cases(self, ctx, budget):
         ctx.exhaustive_parts.append("establish: full grid of establishment outcomes x endpoint forms x tie order")
-        return G.establish_cases(budget, ctx.sub_rng("c12-establish", budget))
+        return G.decorate(G.establish_cases(budget, ctx.sub_rng("c12-establish", budget)), self.name)
 
     def oracle(self, case, o):
         if o.get("harness_errors"):
@@ -381,7 +431,7 @@ class Requests(Base):
 
     def cases(self, ctx, budget):
         ctx.exhaustive_parts.append("requests: every mode x POST/event placement grid x cuts x tie; all ordered pairs of modes")
-        return G.request_cases(budget, ctx.sub_rng("c12-requests", budget))
+        return G.decorate(G.request_cases(budget, ctx.sub_rng("c12-requests", budget)), self.name)
 
     def oracle(self, case, o):
         if o.get("harness_errors"):
@@ -437,7 +487,7 @@ class Backpressure(Base):
 
     def cases(self, ctx, budget):
         ctx.exhaustive_parts.append("backpressure: burst sizes {0,1,99,100,101,150,400} x one chunk / one chunk per event / arbitrary cuts x request behind the burst")
-        return G.backpressure_cases(budget, ctx.sub_rng("c12-backpressure", budget))
+        return G.decorate(G.backpressure_cases(budget, ctx.sub_rng("c12-backpressure", budget)), self.name)
 
     def oracle(self, case, o):
         if o.get("harness_errors"):
@@ -459,14 +509,14 @@ class Variants(Base):
     name = "variants"
 
     def cases(self, ctx, budget):
-        return G.hardening_cases(budget, ctx.sub_rng("c12-variants", budget))
+        return G.decorate(G.hardening_cases(budget, ctx.sub_rng("c12-variants", budget)), self.name)
 
     def oracle(self, case, o):
         if o.get("harness_errors"):
             return None
         v = oracle_enter(case, o)
-        if v is None and case.get("warm") and (o.get("warm") or {}).get("k") != (o.get("enter") or {}).get("k"):
-            return ("reuse/second-session-differs", f"first session on the parameters object {o.get('warm')}, second {o.get('enter')} (same server script)", None)
+        if v is None:
+            v = oracle_warm(case, o)
         if v is None and (o.get("enter") or {}).get("k") == "yielded":
             v = oracle_requests(case, o)
         if v is None and (o.get("enter") or {}).get("k") == "yielded":
@@ -484,7 +534,7 @@ class Grammar(Base):
 
     def cases(self, ctx, budget):
         ctx.exhaustive_parts.append("grammar: announcement forms x LF/CRLF x padding without the optional space; answer styles x modes x id types")
-        return G.grammar_cases(budget, ctx.sub_rng("c12-grammar", budget))
+        return G.decorate(G.grammar_cases(budget, ctx.sub_rng("c12-grammar", budget)), self.name)
 
     def oracle(self, case, o):
         if o.get("harness_errors"):
@@ -505,7 +555,7 @@ class RaceMatrix(Base):
 
     def cases(self, ctx, budget):
         ctx.exhaustive_parts.append("race-matrix: POST completion kinds x {no event, event before / at / after the POST completion} x tie order")
-        return G.race_matrix_cases(budget, ctx.sub_rng("c12-race", budget))
+        return G.decorate(G.race_matrix_cases(budget, ctx.sub_rng("c12-race", budget)), self.name)
 
     def oracle(self, case, o):
         if o.get("harness_errors"):
@@ -523,11 +573,37 @@ class RaceMatrix(Base):
         return f"race/{k}/event-{G.event_order(r) or 'none'}"
 
 
+class Repeats(Base):
+    """HARDEN2 D-G: repeated failures then success, failing sessions in a row on one parameters
+    object, every exception class, every JSON type in id / body positions, syntax-looking text"""
+    name = "repeats"
+
+    def cases(self, ctx, budget):
+        return G.decorate(G.repeat_cases(budget, ctx.sub_rng("c12-repeats", budget)), self.name)
+
+    def oracle(self, case, o):
+        if o.get("harness_errors"):
+            return None
+        v = oracle_enter(case, o)
+        if v is None:
+            v = oracle_warm(case, o)
+        if v is None and (o.get("enter") or {}).get("k") == "yielded":
+            v = oracle_requests(case, o)
+        if v is None and (o.get("enter") or {}).get("k") == "yielded":
+            v = oracle_release(case, o)
+        return v
+
+    def kind(self, case, o):
+        modes = [r["mode"] for r in case.get("reqs", [])]
+        tags = [x for x in ("warm", "close_exc", "notif_post") if case.get(x) is not None]
+        return f"repeats/{modes[0] if modes else 'idle'}x{len(modes)}" + ("/" + ",".join(tags) if tags else "")
+
+
 class Boundaries(Base):
     name = "boundaries"
 
     def cases(self, ctx, budget):
-        return G.boundary_cases(budget, ctx.sub_rng("c12-boundaries", budget))
+        return G.decorate(G.boundary_cases(budget, ctx.sub_rng("c12-boundaries", budget)), self.name)
 
     def oracle(self, case, o):
         if o.get("harness_errors"):
@@ -550,6 +626,7 @@ class Units(Suite):
     validation, is_sse_url, never-started guards): real functions vs `Model/SseUnits.lean`.  Not
     implied by the property text: differences are informational (notes / distribution)."""
     name = "units"
+    supplementary = True
 
     def cases(self, ctx, budget):
         return U.cases(budget, ctx.sub_rng("c12-units", budget))
@@ -580,8 +657,8 @@ class Units(Suite):
         if not ok:
             INFO["differs/" + op] += 1
             INFO_FIRST.setdefault("differs/" + op, f"case {canon(case)[:200]} impl {canon(o)[:200]} model {canon(m)[:200]}")
-        else:
-            INFO["agrees/" + op] += 1
+            return f"units/{op} differs"
+        INFO["agrees/" + op] += 1
         return None
 
     def kind(self, case, o):
@@ -594,7 +671,7 @@ class Exits(Base):
 
     def cases(self, ctx, budget):
         ctx.exhaustive_parts.append("exits: exit kind x request mode x point of the request's life")
-        return G.exit_cases(budget, ctx.sub_rng("c12-exits", budget))
+        return G.decorate(G.exit_cases(budget, ctx.sub_rng("c12-exits", budget)), self.name)
 
     def oracle(self, case, o):
         if o.get("harness_errors"):
@@ -631,4 +708,4 @@ def extra(ctx, tier):
 
 
 def suites():
-    return [Establish(), Requests(), Chunking(), Backpressure(), Variants(), Grammar(), RaceMatrix(), Boundaries(), Exits(), Units()]
+    return [Establish(), Requests(), Chunking(), Backpressure(), Variants(), Grammar(), RaceMatrix(), Repeats(), Boundaries(), Exits(), Units()]
